@@ -68,6 +68,13 @@ def s1(prog, rep):
         rep.defer_broken("S1: no unsigned conversion found (parsenum_unsigned gone?)")
 
 
+def _canon(atom):
+    """One orientation per comparison (the atoms come in both)."""
+    op, L, R = atom
+    sw = {"==": "==", "!=": "!=", "<": ">", ">": "<", "<=": ">=", ">=": "<="}[op]
+    return min((op, L, R), (sw, R, L), key=repr)
+
+
 def _reasons(f, store):
     """Atoms on the edges that lead directly into the store's block, and the atoms of the branches dominating those."""
     direct = set()
@@ -83,7 +90,7 @@ def _reasons(f, store):
                 for cond, truth in f.edge_conds(b.cond):
                     for op, L, R, _, _ in cond_atoms(cond, truth):
                         context.add((op, strip_ids(L), strip_ids(R)))
-    return direct, context
+    return set(_canon(a) for a in direct), set(_canon(a) for a in context)
 
 
 def s2(prog, rep):
@@ -120,7 +127,7 @@ def s2(prog, rep):
         ok = len(es) == 1
         if ok:
             d, c = _reasons(f, es[0])
-            ok = d == want_direct and ("==", V("trailing"), Z) in c
+            ok = d == set(_canon(a) for a in want_direct) and _canon(("==", V("trailing"), Z)) in c
         rep.check(ok, "S2-sibling", "%s: EINVAL exactly on eptr == s || (!trailing && *eptr)" % name, es[0].where if es else f.loc,
                   "edges into the store: %s" % (sorted(map(str, _reasons(f, es[0])[0])) if es else "no store"), function=name, construct="einval")
         # ERANGE
@@ -135,7 +142,7 @@ def s2(prog, rep):
             ok = False
             for r in rs:
                 d, ctx = _reasons(f, r)
-                if want <= d and ("!=", V("eptr"), V("s")) in ctx:
+                if set(_canon(a) for a in want) <= d and _canon(("!=", V("eptr"), V("s"))) in ctx:
                     ok = True
                     break
         rep.check(ok, "S2-sibling", "%s: ERANGE on val < min || val > max%s, only for a well-formed numeral" % (name, " || val > typemax" if has_typemax else ""),
